@@ -25,10 +25,14 @@ class budget:
         self.seconds = seconds
 
     def __enter__(self):
+        if self.seconds is None:        # no budget (threads other than the main one cannot use signals)
+            return
         self.old = signal.signal(signal.SIGALRM, _alarm)
         signal.setitimer(signal.ITIMER_REAL, self.seconds)
 
     def __exit__(self, *a):
+        if self.seconds is None:
+            return False
         signal.setitimer(signal.ITIMER_REAL, 0)
         signal.signal(signal.SIGALRM, self.old)
         return False
